@@ -154,8 +154,11 @@ def module_init_copies():
 def add_accessible_configures_copy():
     f = find_func(find_class(parse(MB), 'Module'), '_add_accessible')
     txt = _norm(f)
-    want = ("if cfg is not None: try: for propname, propvalue in cfg.items(): if propname in {'value', 'default', 'constant'}: "
-            'accessible.datatype(cfg[propname]) accessible.setProperty(propname, propvalue)')
+    # shape after fix 8b6cdcd: every configured property is applied to the copy first, then value / default / constant are
+    # checked against the datatype as configured (in the modelled domain - the datatype of an enum cannot be configured,
+    # a FloatRange accepts every number here - the verdict is the same as with the check at the position of the entry)
+    want = ("if cfg is not None: try: for propname, propvalue in cfg.items(): accessible.setProperty(propname, propvalue) "
+            "for propname in ('value', 'default', 'constant'): if propname in cfg: accessible.datatype(cfg[propname])")
     return 'bool', cbool(want in txt and 'self.accessibles[name] = accessible' in txt)
 
 
@@ -283,13 +286,82 @@ def register_input_creates_instance_dict_first():
     return 'bool', cbool(ok and writes == 1)
 
 
+# ---- module level properties (frappy/properties.py)
+def _hp_initsub():
+    return find_func(find_class(parse(PR), 'HasProperties'), '__init_subclass__')
+
+
+def properties_collected_along_reversed_mro():
+    """HasProperties.__init_subclass__, first loop: every Property found in a __dict__ along the reversed MRO is
+    remembered under its name (a Parameter of that name hides it); the result becomes cls.propertyDict"""
+    f = _hp_initsub()
+    loops = [n for n in f.body if isinstance(n, ast.For)]
+    if not loops:
+        raise Shape('no for loop in HasProperties.__init_subclass__')
+    want = ('for base in reversed(cls.__mro__): for key, value in base.__dict__.items(): '
+            'if isinstance(value, Property): properties[key] = value '
+            'elif isinstance(value, HasProperties): properties.pop(key, None)')
+    st = _stmts(f)
+    return 'bool', cbool(_norm(loops[0]) == want and 'properties = {}' in st and 'cls.propertyDict = properties' in st)
+
+
+def bare_value_override_copies_property_unconditionally():
+    """second loop: `po = po.copy()` is the FIRST statement under `if not isinstance(value, Property):` - no condition
+    in front of it -, the value is written to the copy only, the copy goes to the class and to propertyDict; nothing
+    else in properties.py assigns the attribute `value` of an object other than self; Property.copy builds a new object"""
+    t = parse(PR)
+    f = _hp_initsub()
+    loops = [n for n in f.body if isinstance(n, ast.For)]
+    if len(loops) < 2:
+        raise Shape('second loop of HasProperties.__init_subclass__ missing')
+    loop = loops[1]
+    ok = _norm(loop.target) in ('pn, po', '(pn, po)') and _norm(loop.iter) == 'list(properties.items())'
+    body = loop.body
+    ok = ok and len(body) == 2 and _norm(body[0]) == 'value = getattr(cls, pn, po)' and isinstance(body[1], ast.If) \
+        and _norm(body[1].test) == 'not isinstance(value, Property)' and not body[1].orelse
+    if ok:
+        inner = body[1].body
+        ok = len(inner) == 3 and _norm(inner[0]) == 'po = po.copy()' and isinstance(inner[1], ast.Try) \
+            and [_norm(x) for x in inner[1].body] == ['po.value = po.datatype.validate(value)', 'setattr(cls, pn, po)'] \
+            and _norm(inner[2]) == 'cls.propertyDict[pn] = po'
+    # no other write to `<something other than self>.value` in the module
+    writes = 0
+    for n in ast.walk(t):
+        if isinstance(n, (ast.Assign, ast.AugAssign, ast.AnnAssign)):
+            targets = n.targets if isinstance(n, ast.Assign) else [n.target]
+            for x in targets:
+                if isinstance(x, ast.Attribute) and x.attr == 'value' and not (isinstance(x.value, ast.Name) and x.value.id == 'self'):
+                    writes += 1
+    cp = _stmts(find_func(find_class(t, 'Property'), 'copy'))
+    return 'bool', cbool(ok and writes == 1 and cp == ['return type(self)(**self.__dict__)'])
+
+
+def hasproperties_init_presets_values():
+    """HasProperties.__init__: the preset values of the class level Property objects are copied into the new dict"""
+    st = _stmts(find_func(find_class(parse(PR), 'HasProperties'), '__init__'))
+    want = 'for pn, po in self.propertyDict.items(): if po.value is not UNSET: self.setProperty(pn, po.value)'
+    pg = _stmts(find_func(find_class(parse(PR), 'Property'), '__get__'))
+    return 'bool', cbool(want in st and pg == ['if instance is None: return self',
+                                               'return instance.propertyValues.get(self.name, self.default)'])
+
+
+def module_init_configures_properties_on_instance():
+    """Module.__init__ step 2: configured module properties go through self.setProperty (the dict of the instance)"""
+    txt = _norm(find_func(find_class(parse(MB), 'Module'), '__init__'))
+    want = ("for key in self.propertyDict: value = cfgdict.pop(key, None) if value is not None: try: "
+            "if isinstance(value, dict): self.setProperty(key, value['value']) else: self.setProperty(key, value)")
+    return 'bool', cbool(want in txt)
+
+
 FACTS = [walk_is_reversed_mro, second_loop_merges_in_place, wrapped_classes_skip, param_update_properties, param_merge,
          param_clone, param_create_from_value, accessible_copy, param_own_properties, param_finish_revalidates,
          param_setproperty_routes, hasproperties_fresh_values, property_set_on_instance, module_init_copies,
          add_accessible_configures_copy, datatype_copy_rebuilds, register_input_replaces_datatype,
          command_clone_copies_argument_and_result, command_merge_in_place, command_create_from_value,
          command_call_marks_optional, command_own_properties, mixins_no_mutable_class_attribute,
-         register_input_creates_instance_dict_first]
+         register_input_creates_instance_dict_first, properties_collected_along_reversed_mro,
+         bare_value_override_copies_property_unconditionally, hasproperties_init_presets_values,
+         module_init_configures_properties_on_instance]
 
 FINGERPRINTS = {
     'HasAccessibles.__init_subclass__': _initsub,
